@@ -271,3 +271,20 @@ async fn d12_torn_header_falls_back() {
         assert!(c.get(i).await.unwrap().is_some());
     }
 }
+
+/// D13 (C08.R3): a clear in the middle of the contiguous range that is only in the oplog must
+/// lower the contiguous length when it is replayed on reopen, as it did in memory.
+#[tokio::test]
+async fn d13_replayed_clear_lowers_contiguous_length() {
+    let d = Disk::new();
+    let mut c = create(&d, keys()).await;
+    let blocks: Vec<Vec<u8>> = (0..10u8).map(|i| vec![i]).collect();
+    c.append_batch(&blocks).await.unwrap(); // first operation: flushed, header hint = 10
+    assert_eq!(c.info().contiguous_length, 10);
+    c.clear(2, 5).await.unwrap(); // entry only in the oplog
+    assert_eq!(c.info().contiguous_length, 2);
+    drop(c);
+    let c = reopen(&d).await.unwrap();
+    assert!(!c.has(2));
+    assert_eq!(c.info().contiguous_length, 2, "contiguous length must equal the smallest index that is not held");
+}
